@@ -142,9 +142,11 @@ def obligations(ex, it, root, steps=60):
             ex.samples.append({"program": T.show(c["t"], c["cells"]), "stuck": why})
 
 
-def order_family(n, quick):
+def order_family(n, quick, deep=False):
     """Groups of n definitions with omitted annotations whose definitions are leaves, sums, calls or
-    lambdas over leaves: forward references, values and non-values in every order."""
+    lambdas over leaves: forward references, values and non-values in every order.  deep: the second
+    child of a definition (a lambda's body, a right operand, an argument) may itself be a sum or a
+    call over leaves, so that a function's body can *use* the group member it mentions."""
     leaves = ["Variable", "IntegerLiteral"]
     defs = ["IntegerLiteral", "Variable", "Sum", "Lambda", "Application"]
     body = ["Variable", "Application"] if quick else ["Variable", "Application", "Sum"]
@@ -157,9 +159,23 @@ def order_family(n, quick):
                 return body
             return ["Unifier"] if node.slot % 2 == 0 else defs
         # depth 3: children of a definition or of the body
-        p = node.parent
-        return leaves + ["Integer"] if node.slot == 0 else leaves
+        if node.depth == 3:
+            if node.slot == 0:
+                return leaves + ["Integer"]
+            if deep and node.parent.slot != 2 * n:
+                return leaves + ["Sum", "Application"]      # only under a Lambda, see DeepOrderSpace
+            return leaves
+        return leaves
     return alpha
+
+
+class DeepOrderSpace(TC.ProgramSpace):
+    """The deeper order family: only a *function body* may be a sum or a call (path-local
+    restriction applied when the definition's constructor is decided)."""
+
+    def on_decided(self, node, new, ex):
+        if node.depth == 2 and "Lambda" not in new and any(I.ARITY[c] >= 2 for c in new):
+            ex.restrict(node.kid(1), frozenset(["Variable", "IntegerLiteral"]))
 
 
 def nested_family():
@@ -180,14 +196,14 @@ def nested_family():
     return alpha
 
 
-def make_family(H, n, quick, alpha=None, depth=3):
-    alpha = alpha or order_family(n, quick)
+def make_family(H, n, quick, alpha=None, depth=3, deep=False):
+    alpha = alpha or order_family(n, quick, deep)
 
     def make():
         ex, it = H.engine(solver_timeout_ms=120000)
         ex.fuel = 4000
         it.max_call_depth = 600
-        sp = TC.ProgramSpace("p", depth, alpha, scope=0)
+        sp = (DeepOrderSpace if deep else TC.ProgramSpace)("p", depth, alpha, scope=0)
         root = sp.root()
 
         def body(ex):
@@ -320,8 +336,12 @@ def main():
     parts = [("pipeline on programs B(%d) with holes" % budget, c03.make_factory(H, budget, TC.WITH_HOLES, 40000, obligations)),
              ("definition-order family: groups of 2 definitions", make_family(H, 2, quick)),
              ("definition-order family: a group nested in a definition", make_family(H, 2, quick, nested_family(), 4))]
+    parts.append(("definition-order family: groups of 2 definitions, bodies and operands one level deeper", make_family(H, 2, True, depth=4, deep=True)))
     if not quick:
         parts.append(("definition-order family: groups of 3 definitions", make_family(H, 3, True)))
+    only = os.environ.get("C01_PARTS")
+    if only:
+        parts = [p for i, p in enumerate(parts) if str(i) in only]
     for name, mk in parts:
         t0 = time.time()
         m = parallel_explore(mk, H.jobs)
